@@ -21,7 +21,56 @@ def sigfn(v, o, why):
     return "C03 %s %s" % ("+".join(feat), why.split(" at event")[0])
 
 
+LITERALS = ["just text", "a{b}c %} #} -", "line1\r\nline2\n", "\u00e9\u20ac {", "x" * 5000]
+FAILING = ["<<stale literal>>{{ nosuch() }}tail", "T{% include 'missing' %}U", "P{{ 1 % 0 }}Q", "{% for v in [1, 2] %}L{{ v }}{% if v == 2 %}{{ x|nosuchfilter }}{% endif %}{% endfor %}",
+           "B{% block b %}in{{ block('nosuchblock') }}{% endblock %}", "{% filter upper %}F{{ nosuch() }}{% endfilter %}"]
+
+
+def history_cases():
+    """a template without delimiters renders to itself - also right after a render that failed part-way, through Execute and
+    ExecuteSafe, on one environment (nothing a call leaves behind may reach the next)"""
+    out = []
+    n = 0
+    for env in ("core", "twig"):
+        for fi, f in enumerate(FAILING):
+            for first_safe in (True, False):
+                for second_safe in (True, False):
+                    srcs = {"f": list(f.encode())}
+                    calls = [{"entry": "f", "safe": first_safe}]
+                    for li, lit in enumerate(LITERALS):
+                        srcs["l%d" % li] = list(lit.encode())
+                        calls.append({"entry": "l%d" % li, "safe": second_safe})
+                        calls.append({"entry": "f", "safe": first_safe})
+                    n += 1
+                    out.append({"id": "C03-h%d" % n, "k": "seqrender", "env": env, "srcs": srcs, "calls": calls, "fresh": True})
+    return out
+
+
+def check_history(run, cases):
+    import common
+    obs, _ = common.run_pool(cases, deadline_ms=10000)
+    for c in cases:
+        o = obs[c["id"]]
+        run.count(c["id"], True)
+        if o["st"] != "ok":
+            run.mismatch("C03 history %s" % common.crash_sig(o), c, "did not terminate normally: " + o["st"], observed=o)
+            continue
+        for call, res in zip(c["calls"], o["obs"]["results"]):
+            if call["entry"] == "f":
+                continue
+            want = bytes(c["srcs"][call["entry"]])
+            if not res["ok"] or bytes(res["out"]) != want:
+                run.mismatch("C03 history: literal template after a failed render is not rendered to itself", c,
+                             "a template without delimiters must render to itself", expected=common.show(want)[:200],
+                             observed={"ok": res["ok"], "out": common.show(bytes(res["out"]))[:300], "safe": call["safe"]})
+                break
+    run.traces += len(cases)
+
+
 def check(run, only=None):
+    if only is not None and only[0].get("k") == "seqrender":
+        check_history(run, only)
+        return
     run.rule = ("skeletons: chunk construct chunk for 18 chunks (multi-byte UTF-8, LF, CRLF, lone { } % #, closing delimiters, '-') "
                 "x 14 simple constructs (print, comments, verbatim bodies with prints/tags/comments), chunks alone and adjacent, "
                 "and the same inside if/else/for/block/set/filter/macro bodies (depth 2; thorough depth 3), each in canonical and "
@@ -32,6 +81,7 @@ def check(run, only=None):
     run.assumptions = ["AST-level family: a literal run followed by a construct does not end in '{' (the byte-level family has no such exclusion)"]
     simple.gen_and_replay(run, "C03", nontrivial=nontrivial, only=only, sigfn=sigfn, check_log=False, deadline_ms=3000)
     if only is None:
+        check_history(run, history_cases())
         # the same property decided from BYTES by the whole specification pipeline (Lexer -> Parser -> Exec)
         simple.gen_and_replay(run, "C03_Src", nontrivial=nontrivial, sigfn=sigfn, check_log=False, deadline_ms=3000)
         # text inside any nesting of the body-opening tags (balanced fragment sequences of a grammar), again from bytes
